@@ -92,7 +92,10 @@ fn gen_text(rng: &mut Rng, abbrev: bool) -> Vec<u8> {
     let mut out = Vec::new();
     let lines = rng.below(6);
     for _ in 0..lines {
-        let kind = rng.below(12);
+        // kinds 12..15 (round 3, after the seeded change C12-abbrev-multibyte-blank-slices-inside-char): blanks other than
+        // the ASCII space — ideographic space, no-break space, NEL, tab — before / instead of the separator
+        let kind = rng.below(16);
+        let blank = *rng.pick(&['\u{3000}', '\u{a0}', '\u{85}', '\t', '\u{2003}']);
         let heads = ["a", "b", "ab", "常用", "…", "Z", "a"];
         let tails = ["apple", "，、。", "x y", "", "=", " ", "q=r"];
         let line: Vec<u8> = match kind {
@@ -102,6 +105,10 @@ fn gen_text(rng: &mut Rng, abbrev: bool) -> Vec<u8> {
             3 => vec![0xff, b'a', sep as u8, b'x'],                        // not UTF-8
             4 => vec![0xe4, 0xb8],                                         // truncated UTF-8
             5 => format!("{}{}{}{}", rng.pick(&heads), sep, rng.pick(&tails), sep).into_bytes(),
+            12 => format!("{}{}{}", rng.pick(&heads), blank, rng.pick(&tails)).into_bytes(),
+            13 => format!("{}{}{}{}", rng.pick(&heads), blank, sep, rng.pick(&tails)).into_bytes(),
+            14 => format!("{}{}{}{}", rng.pick(&heads), sep, blank, rng.pick(&tails)).into_bytes(),
+            15 => format!("{}{}", blank, rng.pick(&tails)).into_bytes(),
             _ => format!("{}{}{}", rng.pick(&heads), sep, rng.pick(&tails)).into_bytes(),
         };
         out.extend(line);
